@@ -262,6 +262,15 @@ def loop_rules(body, sig):
         new = f"let mut {name}: {ty} = Vec::new();\n        for {pv} in it_{name}: {recv}.iter() {{\n            {name}.push({expr});\n        }}"
         b = b[:m.start()] + new + b[k + tail.end():]
         hit("R10.iter-map-collect->push-loop")
+    # R12: reverse iteration over a Vec/slice local: `for &x in V.iter().rev() {`  ->  index loop from len-1 down to 0
+    def r12(m):
+        x, v = m.group(1), m.group(2)
+        hit("R12.rev-iter->index-loop")
+        return f"let mut i__{x}: usize = {v}.len(); while i__{x} > 0 {{ i__{x} -= 1; let {x} = {v}[i__{x}];"
+    b = re.sub(r"\bfor\s+&(\w+)\s+in\s+(\w+)\.iter\(\)\.rev\(\)\s*\{", r12, b)
+    # R13: std sort/dedup on a Vec<u32> local -> assumed-contract helpers
+    b = rule_sub("R13.sort_unstable->assumed-contract", r"\b(\w+)\.sort_unstable\(\);", lambda m: f"vpv_sort_unstable(&mut {m.group(1)});", b)
+    b = rule_sub("R13.dedup->assumed-contract", r"\b(\w+)\.dedup\(\);", lambda m: f"vpv_dedup(&mut {m.group(1)});", b)
     def r11(m):
         pv, s_ = m.group(1), m.group(2)
         if re.search(r"\b" + re.escape(s_) + r"\s*:\s*&\[", sig):
